@@ -9,9 +9,9 @@ import (
 
 // The mode table of property C05, enumerated completely.
 var (
-	tCI       = []string{"off", "on"}
+	tCI       = []string{"off", "on", "vendor", "neutral", "false-overrides"}
 	tUpdate   = []string{"unset", "true", "false"}
-	tUpdVar   = []string{"unset", "true", "clean", "false", "1"}
+	tUpdVar   = []string{"unset", "true", "clean", "false", "1", "TRUE"}
 	tState    = []string{"missing", "equal", "different"}
 	tClean    = []string{"none", "plain", "sort"}
 	tObsolete = []string{"absent", "present"}
@@ -83,8 +83,16 @@ func TableWorld(seed uint64, i int) *check.World {
 	w.Lifetimes = append(w.Lifetimes, &scen.Lifetime{Mode: "runner", Count: 1, Env: map[string]string{}, Configs: l1cfgs, Tests: prog1, Note: "prepare"})
 	// L2: the cell
 	env := map[string]string{}
-	if c.CI == "on" {
+	switch c.CI {
+	case "on":
 		env["CI"] = "true"
+	case "vendor": // a CI vendor's own variable, CI itself unset
+		env["GITHUB_ACTIONS"] = "true"
+	case "neutral": // a vendor-neutral variable with an arbitrary value
+		env["BUILD_NUMBER"] = "17"
+	case "false-overrides": // CI=false wins over everything else: not on CI
+		env["CI"] = "false"
+		env["GITLAB_CI"] = "1"
 	}
 	if c.UpdVar != "unset" {
 		env["UPDATE_SNAPS"] = c.UpdVar
